@@ -55,6 +55,10 @@ STRENGTHENED = {
     'C49-2': 'missed at first (no node with a DNS responder or sshd was ever stopped); a real-socket services unit was added (lighthouse with serve_dns, sshd), with stop requests inside the responder bind window (reached by a blocking log sink and by free scheduling) and the clock-free witness "the stopped node still answers a query".',
     'C09-3': 'missed at first (the answering certificate that lists the dialled address first and the victim own address after it was reached too rarely); a third of the poison steps now construct exactly that dial.',
     'C39-3': 'missed at first; hostile peers now also answer in place of the target: a CreateRelayResponse from a third peer carrying the initiator index of a request the relay sent to another peer.',
+    'C32-3': 'missed by C32 at first (caught by C33: the defect is in the timer wheel); a stall unit was added to C32: the handshake manager routine is delayed at a yield point for 0.3x..6x the wheel span and the lower bounds of the back-off are judged.',
+    'C34-3': 'missed at first (the alias-repair branch of the lighthouse cache was too rare in the node stress); a component-level lighthouse cache stress unit under the race detector was added.',
+    'C36-3': 'missed at first (the component-level unit never runs the handshake paths); a node-level unit was added: initiator stage-2 source, responder stage-1 source and roaming packets from allowed / globally denied / range-denied underlay addresses, then every datagram the node writes and every address it keeps for the peer is judged.',
+    'C15-3': 'missed by C15 at first (caught by C17); half of the C15 sessions now run with the routine-local conntrack cache enabled.',
     'C47': 'missed at first (short inputs were only presented as len==cap slices); short inputs at the front of a larger stale buffer were added.',
 }
 
